@@ -13,23 +13,22 @@ def toLbl (e : Driver.Ev) : Option Lbl :=
   | "MX_LOCK_CAS1" => e.cur.map (fun t => .lockCas1 t (e.v == 1))
   | "MX_LOCK_CAS2" => e.cur.map (fun t => .lockCas2 t (e.v == 1))
   | "BLOCK_BEGIN" => tb.map (fun t => .blockBegin t)
-  | "BLOCK_CB_ENQ" => tb.map (fun t => .cbEnq t)
+  | "SQ_ENQ" => tb.map (fun t => .cbEnq t)
   | "MX_TRY_READ" => e.cur.map (fun t => .tryRead t e.v.toNat)
   | "MX_TRY_CAS" => e.cur.map (fun t => .tryCas t (e.v == 1))
   | "MX_UNLOCK_READ" => e.cur.map (fun t => .unlockRead t e.v.toNat)
   | "MX_UNLOCK_CAS2" => e.cur.map (fun t => .unlockCas2 t (e.v == 1))
   | "MX_UNLOCK_CAS0" => e.cur.map (fun t => .unlockCas0 t (e.v == 1))
-  | "SPIN_WAKE_DEQ" => e.cur.map (fun t => .wakeSpin t)
-  | "WAKE_DEQ" => match e.cur, tb with
+  | "SQ_DEQ" => match e.cur, tb with       -- reported inside the queue's critical section
       | some t, some x => some (.wakeDeq t x)
+      | some t, none => if e.b == "-" then some (.wakeSpin t) else none
       | _, _ => none
   | "MX_CLEAR_BIT" => e.cur.map (fun t => .clearBit t)
   | "WAKE_PUSH" => tb.map (fun x => .wakePush x)
   | _ => none
 
 def relevant (pt : String) : Bool :=
-  pt.startsWith "MX_" || pt == "BLOCK_BEGIN" || pt == "BLOCK_CB_ENQ" || pt == "SPIN_WAKE_DEQ" ||
-  pt == "WAKE_DEQ" || pt == "WAKE_PUSH"
+  pt.startsWith "MX_" || pt == "BLOCK_BEGIN" || pt == "SQ_ENQ" || pt == "SQ_DEQ" || pt == "WAKE_PUSH"
 
 structure Acc where
   objs : List (String × St) := []
